@@ -280,7 +280,7 @@ def aderef_script(expr, scalars, arrays, use):
 
 def _rand_aexp(rng, ns, na, d=0):
     k = rng.randrange(10)
-    if k < 3 or (d >= 2 and k < 6):
+    if k < 3 or (d >= 2 and k < 6) or d >= 3:      # at most 4 nested subscripts (more is KF-C01-arith-subscript-backtracking)
         return ("l", rng.randrange(0, 4))
     if k < 6 or na == 0:
         return ("v", rng.randrange(0, ns + 1))
@@ -678,6 +678,165 @@ HEREDOCS = ["cat <<'' ", "<<'' ", 'cat <<"" ;x\t', "cat <<''\n\n", "cat <<-'' ",
             "cat <<E\nx", "cat <<'E'", "cat <<-\tE\n\tx\n\tE", "cat <<E <<F\na\nE\nb\nF", "cat <<\\E\n$x\nE", "cat <<E;echo y\nx\nE"]
 
 
+# ------------------------------------------------------------------ round g: Unicode boundary alphabet, here-documents
+# in every syntactic position, numeric-argument sweeps of the builtins
+
+# characters whose case mapping changes the UTF-8 length or expands to several characters, combining marks, 4-byte characters
+UNI = ["\u0131", "\u017f", "\u212a", "\u00df", "\u0149", "\u01f0", "\u0390", "\ufb01", "\u0130", "\u01c6", "\u01c5", "\u03a3", "\u03c2",
+       "\u00e9", "e\u0301", "\u0301", "\U0001f600", "\U00010428", "\U00010400", "\u1e9e", "\u212b", "\u2126", "\u1fb3", "\u2c65", "\u023a",
+       "\u0250", "\u2c6f", "\ua7b1", "\u0287", "a", "Z", "1", "\u200d", "\U0001f1e9\U0001f1ea", "\u00b5", "\u1e9b", "\u0345"]
+UNI_KEY = ["\u0131", "\u017f", "\u212a", "\u00df", "\u0149", "\u01f0", "\u0390", "\ufb01", "\u0130", "\u2c65", "\u023a", "\U00010428",
+           "e\u0301", "\u0301", "\U0001f600", "a"]
+
+# every expansion/builtin that transforms or slices text
+UNI_CTX = ['echo "${x^}"', 'echo "${x^^}"', 'echo "${x,}"', 'echo "${x,,}"', 'echo "${x^?}"', 'echo "${x,?}"', 'echo "${x^^?}"', 'echo "${x,,[!a]}"',
+           'echo "${x^[[:alpha:]]}"', 'echo "${x@U}"', 'echo "${x@L}"', 'echo "${x@u}"', 'echo "${x@Q}"', 'echo "${x@E}${x@P}${x@A}${x@K}${x@a}"',
+           'echo "${#x}"', 'echo "${x:1}"', 'echo "${x:1:1}"', 'echo "${x: -1}"', 'echo "${x:0:-1}"', 'echo "${x:2:9}"', 'echo "${x:${#x}}"',
+           'echo "${x#?}"', 'echo "${x##*?}"', 'echo "${x%?}"', 'echo "${x%%?*}"', 'echo "${x#*[!a]}"', 'echo "${x/?/X}"', 'echo "${x//?/X}"',
+           'echo "${x/#?/X}"', 'echo "${x/%?/X}"', 'echo "${x//[![:alpha:]]/_}"', 'echo "${x/?}"', 'echo "${x~}${x~~}"',
+           'declare -c v; v=$x; echo "$v"', 'declare -l v; v=$x; echo "$v"', 'declare -u v; v=$x; echo "$v"', 'declare -c v=$x; v+=$x; echo "$v"',
+           'declare -u v; v[0]=$x; echo "${v[0]}"', 'read -n 1 r <<<"$x"; echo "$r"', 'read -N 2 r <<<"$x"; echo "$r"', 'read -r -n 3 r <<<"$x"; echo "$r"',
+           'read -d "${x:0:1}" r <<<"ab${x}cd"; echo "$r"', "printf '%.1s|%.2s|%3s|%-3s|%.0s|\\n' \"$x\" \"$x\" \"$x\" \"$x\" \"$x\"", 'printf "%q\\n" "$x"',
+           'printf "%d\\n" "\'$x"', 'printf "%c|%5c|\\n" "$x" "$x"', 'printf "%b\\n" "$x"', 'printf -v y "%.1s" "$x"; echo "${#y}"',
+           'a=($x "$x$x"); echo "${a[@]^}" "${a[@],,}" "${a[@]:1}" "${#a[1]}" "${a[@]#?}" "${a[@]/?/X}"', 'case $x in ?) echo one;; ??) echo two;; *) echo more;; esac',
+           '[[ $x == ?* ]]; echo $?', '[[ $x =~ ^.(.*)$ ]]; echo "${BASH_REMATCH[1]}"', 'IFS=${x:0:1}; y="a${x}b"; echo $y', 'y=${x^}; echo "${#y}" "${y:1}"',
+           'y=${x,,}; echo "${#y}" "${y: -1}"', 'echo "${x:1:1}${x:0:1}"', 'set -- "$x"; echo "${1^}" "${@^^}" "${*:1:1}" "${#1}"', 'echo ${x^} ${x,}',
+           'shopt -s nocasematch; [[ $x == "${x^^}" ]]; echo $?; case $x in "${x,,}") echo m;; esac', 'compgen -W "$x ${x^}" -- "${x:0:1}"',
+           'declare -A m; m[$x]=1; echo "${!m[@]}" "${m[$x]}"', 'echo "${x^^}" | { read -n 2 r; echo "$r"; }', 'f() { local -u u=$1; local -l l=$1; echo "$u$l"; }; f "$x"',
+           'printf "%s\\n" "${x:1}" "${x%?}" | while read -r l; do echo "${#l}"; done', 'echo "${x@u}" "${x@L}" "${x@U}"; echo "${x^^}${x,,}"']
+
+
+def unicode_scripts(rng, quick):
+    out = []
+    vals = []
+    for u in (UNI_KEY if quick else UNI):
+        vals += [u, u + "bc", "A" + u, u + u]
+    for v in vals:
+        if quick and len(vals) > 40:
+            ctxs = rng.sample(UNI_CTX, 22)
+        else:
+            ctxs = UNI_CTX
+        for c in ctxs:
+            out.append("x='%s'; %s" % (v, c))
+    for _ in range(150 if quick else 900):
+        v = "".join(pick(rng, UNI) for _ in range(rng.randrange(1, 5)))
+        out.append("x='%s'; %s; %s" % (v, pick(rng, UNI_CTX), pick(rng, UNI_CTX)))
+    # the demo of seeded change C01g/2
+    out.append("d='\u0131ss\u0131z'; echo \"${d^}\"; e='\u017ftra\u00dfe'; echo \"${e^}\"; f='\u212a2'; echo \"${f,}\"")
+    return out
+
+
+def firstchar_cases(rng, n):
+    """(value, op, pattern) for the modelled core pattern_to_first_char"""
+    out = []
+    for u in UNI:
+        for suffix in ("", "bc", "\u0131", u):
+            for op in ("^", ","):
+                out.append((u + suffix, op, None))
+    for u in UNI_KEY:
+        out.append((u + "x", "^", "?"))
+        out.append((u + "x", ",", "?"))
+        out.append((u + "x", "^", "#"))      # a pattern that does not match the first character
+    out.append(("", "^", None))
+    rng.shuffle(out)
+    return out[:n]
+
+
+HD_OPS = ["<<EOF", "<<-EOF", "<<'EOF'", '<<"EOF"', "<<\\EOF", "<< EOF", "<<EOF "]
+HD_BODIES = ["hello", "", "$x ${y:-d} $(echo z) `echo w` $((1+1))", "a\\\nb", "EOF x", " EOF", "\thello", "line1\nline2", "'quoted' \"dq\" \\$x", "é😀"]
+# the here-document operator in every syntactic position, with tokens after it on the same line
+HD_POS = ['cat {H}', 'cat {H} | tr a-z A-Z', '( cat {H} )', '( (cat {H} | tr a-z A-Z); echo "inner=$?" )', '( ( cat {H} ) )', '((cat {H}) )',
+          '( (cat {H}) ); echo after', 'echo $( (cat {H}) )', 'echo $(cat {H})', 'echo $( ( cat {H} | wc -l ); echo x )', 'x=$(cat {H}); echo "$x"',
+          'echo `cat {H}`', '{ cat {H}; }', '{ cat {H}; } | wc -l', 'if cat {H}; then echo y; fi', 'while read l; do echo "$l"; done {H}',
+          'for i in 1 2; do cat {H}; done', 'case x in x) cat {H};; esac', 'f() { cat {H}; }; f; f', 'cat {H} && echo ok', 'cat {H} || echo no', '! cat {H}',
+          'cat {H} > /dev/null 2>&1', 'cat {H} {H2}', 'cat {H}; cat {H2}', '[[ $(cat {H}) =~ h(.*) ]]; echo "${BASH_REMATCH[1]}"',
+          '[[ -n $(cat {H}) ]] && echo y', '[[ x =~ x ]] && cat {H}', '(( $(wc -l {H}) > 0 )); echo $?', 'echo $(( $(wc -c {H}) + 1 ))', '(( 1 )) && cat {H}',
+          '((1)); cat {H}', '( (echo a); cat {H} )', '((echo a); cat {H})', '( ( (cat {H}) ) ; echo z)', '( ( (cat {H} | ( (tr a-z A-Z) ) ) ) )',
+          'arr=( $(cat {H}) ); echo ${#arr[@]}', 'cat {H} | ( (tr a-z A-Z) )', 'eval "$(cat {H})"', 'cat {H} ; echo after # comment', 'echo "$(cat {H})" tail',
+          'echo ${x:-$(cat {H})}', 'cat <( cat {H} )', 'until cat {H}; do break; done', '{ ( (cat {H}) ); }', 'cat {H} 2>&1 1>/dev/null | cat', 'cat 3{H} <&3',
+          'exec 4{H}\ncat <&4', '$( (echo cat) ) {H}', 'echo $( ( (cat {H}) ) )', 'x=( (a) ); cat {H}', '( (cat {H}); (cat {H2}) )', 'a=1 b=2 cat {H} | (cat)',
+          'cat {H} |& cat', 'if ( (cat {H}) ); then :; fi', 'while ( (false) ); do :; done; cat {H}', 'select v in a; do break; done {H}', 'cat {H} & wait',
+          'coproc cat {H}; wait', 'time cat {H}', '((x=1)); ( (cat {H}) ) | cat', 'function g { cat {H}; } ; g']
+
+
+def heredoc_scripts(rng, quick):
+    out = []
+
+    def render(pos, op, body, body2="second"):
+        first = pos.replace("{H2}", op.replace("EOF", "FOE")).replace("{H}", op)
+        head, nl, rest = first.partition("\n")
+        tab = "\t" if op.startswith("<<-") else ""
+        s_ = head + "\n" + body + "\n" + tab + "EOF\n"
+        if "{H2}" in pos:
+            s_ += body2 + "\n" + tab + "FOE\n"
+        if nl:
+            s_ += rest + "\n"
+        return s_ + 'echo "status=$?"'
+    for pos in HD_POS:
+        out.append(render(pos, "<<EOF", "hello"))
+        out.append(render(pos, pick(rng, HD_OPS), pick(rng, HD_BODIES)))
+    for _ in range(80 if quick else 600):
+        out.append(render(pick(rng, HD_POS), pick(rng, HD_OPS), pick(rng, HD_BODIES), pick(rng, HD_BODIES)))
+    # unterminated / odd endings
+    for pos in rng.sample(HD_POS, 12):
+        out.append(pos.replace("{H2}", "<<F").replace("{H}", "<<EOF") + "\nhello")
+        out.append(pos.replace("{H2}", "<<F").replace("{H}", "<<EOF"))
+    return out
+
+
+NUMB = ["0", "1", "-1", "2", "-2", "255", "256", "65536", "2147483647", "2147483648", "4294967295", "4294967296", "9223372036854775807", "9223372036854775808",
+        "-9223372036854775808", "-9223372036854775809", "18446744073709551615", "18446744073709551616", "99999999999999999999999", "", "abc", "1x", "+5",
+        "0x10", "1.5", "-0", "010", "''"]
+NUMB_QUICK = ["0", "-1", "2", "256", "2147483648", "4294967296", "9223372036854775807", "9223372036854775808", "-9223372036854775808",
+              "18446744073709551615", "18446744073709551616", "99999999999999999999999", "abc", "+5", ""]
+# every builtin that parses a number (N = the number); run in-process
+NUM_TEMPLATES = ["f(){ caller N; }; f", "caller N", "g(){ f(){ caller N; }; f; }; g", "mapfile -O N arr <<< $'a\\nb\\nc'; echo ${#arr[@]} ${!arr[@]}",
+                 "mapfile -n N arr <<< $'a\\nb'; echo ${#arr[@]}", "mapfile -s N arr <<< $'a\\nb'; echo ${#arr[@]}", "mapfile -c N -C : arr <<< a",
+                 "mapfile -u N arr; echo $?", "mapfile -t -O N -n N -s N arr <<< $'a\\nb\\nc'", "arr=(x y); mapfile -O N arr <<< $'a\\nb'; echo ${!arr[@]}",
+                 "readarray -O N -t arr <<< $'a\\nb'", "set -- a b c; shift N; echo $#", "set -- a b c; shift N N", "history N", "history -d N", "history -d N-N",
+                 "fc -l N", "fc -l N N", "fc -ln -N", "read -n N r <<< abcdef; echo \"$r\"", "read -{BIGN} N r <<< abcdef; echo \"$r\"", "read -t N r <<< a; echo $?",
+                 "read -u N r; echo $?", "read -d '' -n N r <<< a", "read -a arr -n N <<< 'a b'", "kill -l N", "kill -s N 2147483646", "kill -n N 2147483646",
+                 "kill -N 2147483646", "wait N; echo $?", "wait %N; echo $?", "wait -n N; echo $?", "wait -p v N", "jobs %N", "fg %N", "bg %N", "disown %N",
+                 "printf '%.Ns|\\n' abcdef", "printf '%.*s|\\n' N abcdef", "printf '%d %u %x %o %i\\n' N N N N N", "printf '%c|%5.Nd|\\n' N 1",
+                 "printf '%(%Y)T\\n' N", "printf '%N$s\\n' a", "trap 'echo t' N; trap -p N; trap - N", "trap - N", "trap -l N", "trap '' N N",
+                 "dirs +N", "dirs -N", "dirs -l +N", "for i in 1 2; do break N; done; echo $?", "for i in 1 2; do for j in 1 2; do continue N; done; done; echo $?",
+                 "f(){ return N; }; f; echo $?", "(exit N); echo $?", "f(){ return N N; }; f", "let N; echo $?", "let 'x=N'; echo $x", "echo $((N))", "echo $((N+1))",
+                 "echo $(( 1 << N )) $(( 1 >> N )) $(( 2 ** N ))", "echo $(( N / -1 )) $(( N % -1 ))", "test N -eq N; echo $?", "[ N -lt 1 ]; echo $?",
+                 "[[ N -eq 1 ]]; echo $?", "[ -t N ]; echo $?", "declare -i v=N; echo $v", "a=(p q); a[N]=1; echo ${!a[@]}", "a=(p q); echo \"${a[N]}\"",
+                 "a=(p q); unset 'a[N]'; echo ${#a[@]}", "set -- a b; echo \"${@:N:N}\" \"${*:N}\"", "set -- a b; echo \"${N}\"", "x=abc; echo \"${x:N}\" \"${x:N:N}\" \"${x:0:N}\"",
+                 "echo hi N>&1", "echo hi >&N", "echo hi N>/dev/null", "exec N>&-", "echo hi N<&-", "read -r r N<&0", "getopts a o -N; echo $OPTIND", "OPTIND=N; getopts a o -a; echo $?",
+                 "umask -S; echo N > /dev/null", "ulimit -c N; ulimit -c", "shopt -s N", "set -o N", "enable -n N", "hash -d N", "type N", "help N >/dev/null",
+                 "printf -v 'a[N]' x; echo ${!a[@]}", "echo ${FUNCNAME[N]} ${BASH_LINENO[N]} ${BASH_SOURCE[N]}", "compgen -W 'a b' -- N", "complete -o N c",
+                 "declare -a z; z+=([N]=1 2); echo ${!z[@]}", "local N", "echo ~N ~+N ~-N", "echo {1..3..N} {a..c..N}", "sleep 0; times N", "bind -l N",
+                 "exit N", "logout N", "return N", "break N", "continue N", "eval 'shift N'", "source /dev/null N", "alias N=N; unalias N",
+                 "HISTSIZE=N; history 1", "LINENO=N; echo $LINENO", "RANDOM=N; echo $RANDOM >/dev/null", "SECONDS=N; echo $SECONDS >/dev/null", "OPTIND=N; echo $OPTIND",
+                 "COLUMNS=N; select v in a b; do break; done </dev/null", "BASH_ARGC=N; echo ok", "IFS=N; set -- aNb; echo $1", "TMOUT=N; read -t 0 r <<< a"]
+# builtins that change the process (cwd, dir stack, umask, limits): through the CLI binary only
+NUM_TEMPLATES_PROC = ["cd -N", "cd +N", "pushd +N", "pushd -N", "pushd /tmp >/dev/null; pushd /var >/dev/null; pushd +N; dirs", "pushd /tmp >/dev/null; popd +N; dirs",
+                      "popd -N", "popd +N", "pushd -n +N", "umask N; umask", "umask -S N", "ulimit -c N", "ulimit -Sc N; ulimit -Hc N", "exit N", "trap 'exit N' EXIT",
+                      "f(){ return N; }; f", "set -e; (exit N); echo no", "exec N<&0", "(exit N) & wait $!; echo $?", "wait -n N"]
+
+
+def _subst(t, v):
+    """N stands for the number unless it is part of an upper-case name; {BIGN} is a literal N"""
+    return re.sub(r"(?<![A-Z_])N(?![A-Z_])", lambda m: v, t).replace("{BIGN}", "N")
+
+
+def numeric_scripts(rng, quick):
+    vals = NUMB_QUICK if quick else NUMB
+    inproc, procs = [], []
+    for t in NUM_TEMPLATES:
+        for v in vals:
+            s_ = _subst(t, v)
+            if re.match(r"(exit|logout|return|break|continue)\b", t):
+                s_ = "( " + s_ + " ); echo $?"
+            inproc.append(s_)
+    for t in NUM_TEMPLATES_PROC:
+        for v in (vals if not quick else vals[::2] + ["18446744073709551615"]):
+            procs.append(_subst(t, v))
+    return inproc, procs
+
+
 # witnesses of every recorded finding: always part of the exploration, so that a defect that comes back is seen
 WITNESSES = [
     "echo {-9223372036854775807..-9223372036854775808..2}", "echo {1..99999999999999999999}",
@@ -691,6 +850,7 @@ WITNESSES = [
     "echo " + "{a," * 30 + "b" + "}" * 12,
     "echo {1..9223372036854775807}; echo after",
     " ( " * 32,
+    "echo $(( " + "a0[" * 7 + "3" + "]" * 7 + " ))",
 ]
 WITNESSES_PROC = ["(( 08 )) &\nwait\nwait", "echo ${x:?} &\nwait\nwait; echo $?", "cat <<'' "]
 
@@ -711,6 +871,13 @@ def scripts(rng, scale):
             inproc.append((s, pick(rng, ["", "", "", "interactive", "posix", "sh"])))
     for s in WITNESSES:
         inproc.append((s, "interactive,noenv" if "history" in s else ""))
+    quick = scale <= 2
+    uni = unicode_scripts(rng, quick)
+    hd = heredoc_scripts(rng, quick)
+    num_in, num_proc = numeric_scripts(rng, quick)
+    for s in uni + hd + num_in:
+        inproc.append((s, "interactive,noenv" if re.match(r"(history|fc)\b", s) else ""))
+    procs += num_proc + hd[::3] + uni[::9]
     cyc = cycle_scripts(rng, 150 * scale)
     for s in cyc:
         inproc.append((s, ""))
